@@ -97,9 +97,27 @@ type Case struct {
 	Asks    []int32 `json:"asks,omitempty"`
 }
 
-func recordFailure(c *rig.Ctx, f rig.Failure) { c.Fail(f) }
+// Failure budget: the exploration goes on until five PROPERTY failures (judge) are recorded; of the model-vs-code
+// differences only the first three are recorded (and shrunk) — a tree on which the tie is broken must still be
+// searched for a failing input.
+var nJudge, nDiff int
 
-func otherFailures(c *rig.Ctx) int { return c.NFailures() }
+const maxDiffs = 3
+
+func recordFailure(c *rig.Ctx, f rig.Failure) {
+	if f.Kind == "judge" {
+		nJudge++
+	} else {
+		if nDiff >= maxDiffs {
+			c.Count("diff-not-recorded")
+			return
+		}
+		nDiff++
+	}
+	c.Fail(f)
+}
+
+func otherFailures(c *rig.Ctx) int { return nJudge }
 
 // ------------------------------------------------------------------------------------------------
 // the real code
@@ -1265,7 +1283,11 @@ func main() {
 			c.Count(fmt.Sprintf("seq-len:%d0s", len(cs.Ops)/10))
 			c.Trace()
 			if !r.ok {
-				runSeq(c, shrinkSeq(c, cs, r), true)
+				if r.kind != "judge" && nDiff >= maxDiffs {
+					c.Count("diff-not-recorded")
+				} else {
+					runSeq(c, shrinkSeq(c, cs, r), true)
+				}
 			}
 		}
 		// 3. scripted bucket
